@@ -8,7 +8,7 @@ FIX_NOTE = "fix: commits in /repo (each found by a check, see known_findings.jso
 
 COMMON_NOTE = ("Trusted base: the simulator in /verif/sim (baton scheduler, spin-loop-to-blocked rule, "
                "vector clocks), the harness-side probes/element types, rustc/std. Sampling, not enumeration: "
-               "len <= 12, <= 4 pulling threads, seeded schedules; values are SC interleavings plus bounded "
+               "mostly len <= 12 and <= 4 pulling threads (a few runs up to 2141 elements; thorough tier up to 24 elements and 6 threads), seeded schedules; values are SC interleavings plus bounded "
                "staleness of relaxed/acquire loads; happens-before is computed from the orderings the crate passes "
                "to the atomic shim (cfg orx_concurrent_iter_verif).")
 
